@@ -159,6 +159,19 @@ CHECKS = {
         "candidate of its key; ValueError only if no key at all has one). Settings are compared with BeaconConfig(block), whose decoding "
         "is C02's subject.",
         ref="§4 C01"),
+    "C17": dict(
+        text="With the patch areas scaled through the module namespace (24/32 and 20..56 bytes) and a symbolic environmental key (2..3/6 "
+        "bytes), protocol value and option byte, for every non-empty subset of the four guard options followed by the checksum setting, "
+        "lead offsets 0/2: (recovery) with the true key among the candidate keys — behind a wrong candidate — BeaconConfig.from_file "
+        "returns the original configuration byte for byte, a key that unmasks it, the guard settings in order with their values, the stored "
+        "checksum and both offsets; (safety) with ARBITRARY candidate keys and an arbitrary stored checksum the scanner extracts exactly the "
+        "stored checksum and reports a configuration only if payload_checksum(block)+1 equals it, otherwise the guard metadata alone; "
+        "payload_checksum equals the weighted byte sum modulo 99999999.",
+        note="Trusted: z3; symx; find_xor_key_candidates (n-gram frequency heuristic over collections.Counter) is replaced by a candidate "
+        "list — that the heuristic ranks the true key for every input is statistical and NOT claimed (it is run for real, at the real "
+        "6144/2048 sizes, on concrete validation vectors each run). Validity predicate: the masked payload contains no default-key "
+        "header and no second guard marker.",
+        ref="§4 C17"),
 }
 
 NA = {}
